@@ -35,22 +35,23 @@ import (
 // ---- scenarios ---------------------------------------------------------------------------------------------------------
 
 type scenario struct {
-	idx      int
-	class    string
-	n        int
-	topo     string
-	edges    [][2]int
-	diam     int
-	tmpl     []*template // per node: start from a copy of this store (nil: fresh store)
-	init     [][]*gtx    // per node: transactions added on top, in a valid order
-	w        *world
-	faults   int // length of the fault phase in steps
-	newTx    int // transactions created at nodes during the fault phase
-	hostile  bool
-	profile  string // adversary profile of the fault phase
-	expectNo bool // XOR-colliding difference: the protocol cannot see it (known finding); reported under its own key
-	maxLC    uint32
-	maxDiff  int
+	idx               int
+	class             string
+	n                 int
+	topo              string
+	edges             [][2]int
+	diam              int
+	tmpl              []*template // per node: start from a copy of this store (nil: fresh store)
+	init              [][]*gtx    // per node: transactions added on top, in a valid order
+	w                 *world
+	faults            int // length of the fault phase in steps
+	newTx             int // transactions created at nodes during the fault phase
+	createAtFairStart int
+	hostile           bool
+	profile           string // adversary profile of the fault phase
+	expectNo          bool   // XOR-colliding difference: the protocol cannot see it (known finding); reported under its own key
+	maxLC             uint32
+	maxDiff           int
 }
 
 func (sc *scenario) stream() string { return fmt.Sprintf("scenario-%d", sc.idx) }
@@ -63,6 +64,12 @@ func (sc *scenario) pages() int { return int(sc.maxLC/dag.PageSize) + 1 }
 // difference that one IBLT cannot decode is walked down page by page within the round and then fetched by range: at most one round per
 // page of the union plus the round that discovers the difference; transactions travel one hop per round over the diameter D; blocking
 // conversations left over from the fault phase are cleared by the timeout that starts the fair phase. R = 2 + pages + 2*(D-1), + 2 margin.
+// roundStepCap bounds the deliveries of one fair round (a round that does not quiesce within it is a livelock symptom); the largest
+// number a round needed on the unchanged tree is reported in the evidence (max_deliveries_in_a_fair_round).
+func (sc *scenario) roundStepCap() int {
+	return 1500 + 150*sc.n*sc.pages()*sc.pages()
+}
+
 func (sc *scenario) bound() int {
 	return 4 + sc.pages() + 2*(sc.diam-1)
 }
@@ -205,6 +212,17 @@ func (su *suite) build(idx int, class string, n int, size int, profile string) *
 				}
 			}
 		}
+	case "gossip-ahead":
+		// a node with the lower clock creates transactions on its own branch when the fair phase starts: its Gossip announces refs whose
+		// ancestors the neighbour lacks (TransactionListQuery for the refs -> missing prevs -> restart through State)
+		sc.w = newWorld(int64(idx), nil)
+		common := sc.w.gen(rnd, shape(), rnd.Intn(6), nil)
+		long := sc.w.gen(rnd, dagx.Chain, 30+rnd.Intn(size), common)
+		sc.init[0] = append(append([]*gtx{}, common...), long...)
+		for i := 1; i < n; i++ {
+			sc.init[i] = append(append([]*gtx{}, common...), sc.w.gen(rnd, shape(), 3+rnd.Intn(12), common)...)
+		}
+		sc.newTx = 0
 	case "far-behind":
 		// one node holds the long template DAG, the others the root only
 		t := su.tmpl["long"]
@@ -312,6 +330,11 @@ func (su *suite) build(idx int, class string, n int, size int, profile string) *
 	if sc.profile == "quiet" {
 		sc.faults = 0
 	}
+	if class == "gossip-ahead" {
+		sc.createAtFairStart = -1 // at every node but node 0, see run
+	} else if !sc.expectNo && class != "far-behind" && rnd.Intn(3) == 0 {
+		sc.createAtFairStart = 1 + rnd.Intn(4)
+	}
 	// scenario parameters for the bound and the fingerprint
 	for _, g := range sc.w.order {
 		if g.tx.Clock() > sc.maxLC {
@@ -366,6 +389,7 @@ func (su *suite) run(sc *scenario) {
 		if err != nil {
 			r.Fatalf("scenario %d (%s): %v", sc.idx, sc.class, err)
 		}
+		n.validHeld = n.led.Len() // everything a node starts with was generated valid
 		s.nodes = append(s.nodes, n)
 	}
 	defer func() {
@@ -400,14 +424,27 @@ func (su *suite) run(sc *scenario) {
 	s.phase = "drain"
 	s.releaseDue(true)
 	flushed := len(s.inflight)
-	stepCap := 4000 + 400*len(s.nodes)*sc.pages()
-	for k := 0; len(s.inflight) > 0 && k < stepCap; k++ {
+	for k := 0; len(s.inflight) > 0 && k < 2*sc.roundStepCap(); k++ {
 		s.step++
-		s.deliver(s.take(s.rnd.Intn(len(s.inflight))), "deliver")
+		s.deliverAny()
 	}
 	s.stat("leftover_messages_flushed", flushed)
 	s.timeoutAll()
 	s.phase = "round"
+	// gossip queues are part of the state the fair phase starts from: in some scenarios the nodes' applications create transactions now,
+	// so that the first fair gossip announces refs whose ancestors the neighbour may lack
+	for i := 0; i < sc.createAtFairStart; i++ {
+		s.step++
+		s.createTx(s.nodes[s.rnd.Intn(len(s.nodes))])
+	}
+	if sc.createAtFairStart < 0 {
+		for _, n := range s.nodes[1:] {
+			for k := 0; k < 2; k++ {
+				s.step++
+				s.createTx(n)
+			}
+		}
+	}
 	R := sc.bound()
 	hardCap := 10 * R
 	rounds, conv, capHits := 0, s.converged(), 0
@@ -416,6 +453,9 @@ func (su *suite) run(sc *scenario) {
 		s.tracef("---- fair round %d", round)
 		if s.fairRound(round) {
 			capHits++
+			if capHits >= 2 {
+				break // two rounds that did not quiesce: livelock, reported as no-convergence below
+			}
 		}
 		if round%gossipPerTimeout == 0 {
 			s.timeoutAll()
@@ -448,7 +488,7 @@ func (su *suite) run(sc *scenario) {
 	case !conv && sc.expectNo:
 		missing := 0
 		for _, n := range s.nodes {
-			missing += len(sc.w.valid) - n.led.Len()
+			missing += len(sc.w.valid) - n.validHeld
 		}
 		s.violation("C07/no-convergence/xor-colliding-difference", fmt.Sprintf("after %d fair rounds the nodes still differ by %d transactions although XOR(Max) is equal on all of them: "+
 			"the difference is a set of %d transactions whose refs XOR to zero, Gossip/State compare XORs only and report 'in sync'", R+4, missing, missing/(sc.n-1)),
@@ -456,9 +496,13 @@ func (su *suite) run(sc *scenario) {
 	case !conv:
 		var miss []string
 		for _, n := range s.nodes {
-			miss = append(miss, fmt.Sprintf("%s lacks %d", n.name, len(sc.w.valid)-n.led.Len()))
+			miss = append(miss, fmt.Sprintf("%s lacks %d", n.name, len(sc.w.valid)-n.validHeld))
 		}
-		s.violation("C07/no-convergence/"+class, fmt.Sprintf("no convergence within %d fair gossip rounds (R=%d): %s", hardCap, R, strings.Join(miss, ", ")),
+		how := fmt.Sprintf("no convergence within %d fair gossip rounds (R=%d)", hardCap, R)
+		if capHits >= 2 {
+			how = fmt.Sprintf("livelock: two fair rounds did not quiesce within %d deliveries each (R=%d)", sc.roundStepCap(), R)
+		}
+		s.violation("C07/no-convergence/"+class, fmt.Sprintf("%s: %s", how, strings.Join(miss, ", ")),
 			map[string]any{"R": R, "hard_cap": hardCap, "round_step_cap_hits": capHits})
 	case rounds > R:
 		s.violation("C07/slow-convergence/"+class, fmt.Sprintf("converged after %d fair gossip rounds, bound R=%d (pages=%d diameter=%d)", rounds, R, sc.pages(), sc.diam),
@@ -511,7 +555,7 @@ func (su *suite) run(sc *scenario) {
 	if capHits > 0 {
 		r.Count("scenarios_with_round_step_cap_hit", 1)
 	}
-	su.noteRounds(sc, rounds, conv, R)
+	su.noteRounds(sc, rounds, conv, R, s.maxRound)
 	faultKinds := []string{}
 	for _, k := range []string{"dropped", "duplicated", "delayed", "stale_injected", "reordered_deliveries", "transactions_created_midrun"} {
 		if s.stats[k] > 0 {
@@ -553,9 +597,12 @@ var roundsMu sync.Mutex
 var roundsByClass = map[string][]int{}
 var slack = map[string]int{}
 
-func (su *suite) noteRounds(sc *scenario, rounds int, conv bool, R int) {
+var maxRoundSteps int
+
+func (su *suite) noteRounds(sc *scenario, rounds int, conv bool, R int, roundSteps int) {
 	roundsMu.Lock()
 	defer roundsMu.Unlock()
+	maxRoundSteps = max(maxRoundSteps, roundSteps)
 	if conv {
 		roundsByClass[sc.class] = append(roundsByClass[sc.class], rounds)
 		if cur, ok := slack[sc.class]; !ok || R-rounds < cur {
@@ -574,7 +621,7 @@ func TestCheck(t *testing.T) {
 	r.SetRule("one case = one scenario: a group of N in {2,3,4} real nodes (topology pair/line/triangle/ring/star/full) seeded with generated valid DAGs sharing one root " +
 		"(classes: identical, disjoint branches, behind, far-behind [root vs >1500 transactions over 4 pages], arbitrary [ancestor closures of random samples of one union], " +
 		"iblt-overflow [difference inside page 0 larger than one IBLT decodes], iblt-overflow-late [the same in page 1], multi-page [side branches in several pages of a long common prefix], " +
-		"private [participant lists, payload held or not], xor-collision), a seeded fault phase (deliver in any order, drop, duplicate, delay, stale/unsolicited copies, gossip ticks, " +
+		"private [participant lists, payload held or not], gossip-ahead [a node behind in clock announces fresh transactions of its own branch], xor-collision), a seeded fault phase (deliver in any order, drop, duplicate, delay, stale/unsolicited copies, gossip ticks, " +
 		"conversation expiry/eviction, transactions created at nodes, forged Gossip/TransactionSet/TransactionList carrying tampered transactions) and a fair phase of gossip rounds. " +
 		"Scenario list, DAGs, topology and every adversary choice are functions of (seed, tier, scenario index). Non-trivial: the nodes start with at least two different sets or " +
 		"transactions are created during the run. Distinct by (class, N, topology, union size bucket, largest difference bucket, pages, number of distinct initial sets, kinds of faults applied, rounds needed).")
@@ -644,13 +691,16 @@ func TestCheck(t *testing.T) {
 		specs = append(specs, spec{small[i%len(small)], 2 + (i/len(small)+i)%3, size, ""})
 	}
 	special := []spec{{"far-behind", 2, 0, "quiet"}, {"far-behind", 2, 0, "lossy"}, {"iblt-overflow", 2, 0, "lossy"}, {"iblt-overflow", 3, 0, "quiet"}, {"iblt-overflow-late", 2, 0, "quiet"},
-		{"multi-page", 2, 120, "quiet"}, {"multi-page", 3, 200, "lossy"}, {"multi-page", 4, 300, "chaotic"}, {"multi-page", 4, 300, "quiet"}, {"multi-page", 3, 100, ""}, {"xor-collision", 2, 0, "chaotic"}}
+		{"multi-page", 2, 120, "quiet"}, {"multi-page", 3, 200, "lossy"}, {"multi-page", 4, 300, "chaotic"}, {"multi-page", 4, 300, "quiet"}, {"multi-page", 3, 100, ""}, {"gossip-ahead", 2, 60, "quiet"}, {"gossip-ahead", 3, 60, "lossy"}, {"xor-collision", 2, 0, "chaotic"}}
 	if r.Thorough() {
 		for i := 0; i < 4; i++ {
 			special = append(special, spec{"far-behind", 2 + i%3, 0, ""}, spec{"iblt-overflow", 2 + plan.Intn(3), 0, ""}, spec{"iblt-overflow-late", 2 + plan.Intn(3), 0, ""})
 		}
 		for i := 0; i < 16; i++ {
 			special = append(special, spec{"multi-page", 2 + plan.Intn(3), 100 + plan.Intn(600), ""})
+		}
+		for i := 0; i < 6; i++ {
+			special = append(special, spec{"gossip-ahead", 2 + i%3, 40 + plan.Intn(200), ""})
 		}
 		special = append(special, spec{"xor-collision", 3, 0, "chaotic"})
 	}
@@ -688,6 +738,7 @@ func TestCheck(t *testing.T) {
 	}
 	r.Extra("fair_rounds_to_converge_by_class", dist)
 	r.Extra("fair_rounds_to_converge_max", maxRounds)
+	r.Extra("max_deliveries_in_a_fair_round", maxRoundSteps)
 	r.Extra("bound_R", "4 + pages(union) + 2*(diameter-1) gossip rounds; hard cap 10*R; one virtual conversation timeout per 6 rounds")
 	r.Extra("invalid_transactions_admitted", invalidAdmitted.Load())
 
